@@ -326,8 +326,9 @@ def check_library(ctx, case, drv, walks=True):
         oracle(t, fo, order, sh, do_flat=order in flat_orders)
         if drv is not None:
             compare_with_model(ctx, drv, small, mfiles, order, "first", fo, "merge.extend")
-    # ---- name lookup on one merged tree: Class._find_class against the model's findClass
-    if drv is not None:
+    # ---- name lookup on one merged tree: Class._find_class against the model's findClass (which has no imports:
+    # libraries with import clauses are left to the flat-model oracle)
+    if drv is not None and not any("import " in f["text"] for f in files):
         sub = random.Random(case.get("walk_seed", 0) + 1)
         order = sub.choice(orders)
         t = merge_in_order(files, order)
@@ -489,7 +490,7 @@ def make_case(rng, stream):
     for _ in range(50):
         rep = rng.random() < 0.4
         if stream == "payload":
-            tops = L.gen_library(rng, const_min_depth=0, repeated_names=rep)
+            tops = L.gen_library(rng, const_min_depth=0, repeated_names=rep, import_prob=0.7)
         else:
             tops = L.gen_library(rng, const_min_depth=rng.choice([1, 1, 2]), repeated_names=rep)
         nfiles = rng.choice([2, 2, 3, 3, 4])
@@ -515,12 +516,12 @@ def run(ctx):
         ctx.count("corpus")
         ctx.case({"files": [f["text"] for f in c["files"]]}, nontrivial=True)
         check_library(ctx, c, drv)
-    n = 38 if quick else 1500
+    n = 32 if quick else 1500
     for i in range(n):
         if ctx.time_left() < 0:
             ctx.notes.append("stopped by time budget after %d libraries" % i)
             break
-        stream = "payload" if i % 4 == 3 else "main"
+        stream = "payload" if i % 3 == 2 else "main"
         case = make_case(ctx.rng, stream)
         if case is None:
             ctx.count("generator-gave-up")
